@@ -94,6 +94,16 @@ def gen_case(rng, idx):
     if int_series:
         for f in fuels:
             f["mass"] = [float(round(x)) for x in f["mass"]]
+    if spec == "USER" and len(fuels) >= 2 and rng.random() < 0.5:
+        # two products of one type and origin in one mix (two bunkers, main and pilot fuel from different suppliers), each with the
+        # factors its supplier gave: every entry is counted with its OWN records (seeded change C08-r6: one lookup per kind)
+        import copy
+        fuels[1]["type"], fuels[1]["origin"] = fuels[0]["type"], fuels[0]["origin"]
+        u2 = copy.deepcopy(user)
+        k = float(rng.choice([0.8, 0.9, 1.15]))
+        u2["rows"] = [[r[0] * k, r[1] * 2.0 + 1e-5, r[2], r[3] + 0.5, r[4]] for r in u2["rows"]]
+        fuels[1]["user"] = u2
+        core.axis("user_mix", "two products of one kind with their own factors")
     return {"idx": idx, "spec": spec, "fuels": fuels, "cls": cls, "n_steps": n_steps, "user": user, "int_series": int_series}
 
 
@@ -105,7 +115,7 @@ def build(case):
         as_int = isinstance(m, list) and case.get("int_series") and all(float(x).is_integer() for x in m)
         mass = np.array(m, dtype=int if as_int else float) if isinstance(m, list) else float(m)
         if spec == FuelSpecifiedBy.USER:
-            u = case["user"]
+            u = f.get("user") or case["user"]
             rows = [GhgEmissionFactorTankToWake(r[0], r[1], r[2], r[3], None if r[4] is None else Cls(r[4])) for r in u["rows"]]
             out.append(Fuel(TypeFuel(f["type"]), FuelOrigin(f["origin"]), spec, lhv_mj_per_g=u["lhv"],
                             ghg_emission_factor_well_to_tank_gco2eq_per_mj=u["wtt"], ghg_emission_factor_tank_to_wake=rows,
@@ -167,7 +177,7 @@ def run_case(ctx, case, model=True):
             orig = build(case)
             fc.fuels[0].mass_or_mass_fraction = orig[0].mass_or_mass_fraction
     # a user's own factors edited in place after a first evaluation (a slip sweep on one factor object): the next evaluation uses them
-    if res is not None and case["user"] is not None and case["idx"] % 2 == 0:
+    if res is not None and case["user"] is not None and case["idx"] % 2 == 0 and not any("user" in f for f in case["fuels"]):
         try:
             import copy
             case2 = copy.deepcopy(case)
@@ -192,7 +202,7 @@ def run_case(ctx, case, model=True):
                     row.co2_factor_gco2_per_gfuel, row.c_slip_percent = r0[0], r0[3]
     # ---------------- model
     mres = "skip"
-    if model and ctx.model_available:
+    if model and ctx.model_available and not any("user" in f for f in case["fuels"]):       # (the model's record carries one set of user factors)
         mres = []
         user_m = None if case["user"] is None else {
             "lhv": enc(case["user"]["lhv"]), "wtt": enc(case["user"]["wtt"]),
